@@ -136,7 +136,7 @@ func bigBatchNoTrace(c *Ctx, be string) bool {
 }
 
 func streamC04(c *Ctx) {
-	c.Rule = "fault enumeration: every kind of operation (valid and invalid inputs: duplicate/malformed _id at a later batch position, update producing an invalid document, missing/existing collection, index, document) x a pool of states x every position k of a failing store call (begin, get, set, delete, cursor item read, commit) among the calls the operation makes; " +
+	c.Rule = "random histories with a store fault at a random call of every fourth operation (the history goes on: results, raw dumps and the invariant oracle after every operation); fault enumeration: every kind of operation (valid and invalid inputs: duplicate/malformed _id at a later batch position, update producing an invalid document, missing/existing collection, index, document) x a pool of states x every position k of a failing store call (begin, get, set, delete, cursor item read, commit) among the calls the operation makes; " +
 		"per faulted run: error reported (never success), raw dump unchanged, follow-up operation succeeds, outcome and fired flag equal to the Lean model's; fault-free store-call traces compared call by call. non-trivial = distinct (operation, state, k) where the fault fired"
 	dr := StartDriver(c.DriverBin)
 	defer dr.Close()
@@ -160,6 +160,25 @@ func streamC04(c *Ctx) {
 			c.Unexplained(pending, pendingName)
 		}
 	}()
+	// random histories in which every fourth operation is hit by a store fault at a random call: the failed
+	// operation leaves no trace - also none that only LATER operations on the same handle would reveal
+	for _, be := range backendsAll {
+		im := NewImpl(be, c.Scratch)
+		for hN := 0; hN < c.N(40, 800); hN++ {
+			g := NewGen(c.Rng, dm)
+			h := NewHistGen(g, 2, 2)
+			lines := h.History(HistCfg{Ops: 20, QueriesPer: 0, Indexes: true, Dumps: true, Malformed: true, NoFresh: true, Faults: true})
+			o := runHistory(dr, im, lines, HistOpts{})
+			recordHistory(c, lines, &o, be)
+			c.Count("faulted-history:" + be)
+			if o.Index >= 0 {
+				reportHistoryProblem(c, dr, im, lines, &o, be, HistOpts{}, "faulted-history")
+				im.Destroy()
+				return
+			}
+		}
+		im.Destroy()
+	}
 	for _, be := range backends {
 		im := NewImpl(be, c.Scratch)
 		g := NewGen(c.Rng, dm)
